@@ -44,6 +44,18 @@ def X(s):
     return ('x', s)
 
 
+def FAM(f):
+    return ('f', int(f))
+
+
+def CTL(k):
+    return ('k', int(k))
+
+
+def STATE(dflt):
+    return ('s', int(bool(dflt)))
+
+
 def spell_arg(a, nsname) -> str:
     if isinstance(a, Ref):
         return f"{nsname}::n{a.id}"
@@ -58,6 +70,12 @@ def spell_arg(a, nsname) -> str:
         return 'true' if v else 'false'
     if k == 'x':
         return v
+    if k == 'f':            # action family (class template act<v> of the grammar's namespace)
+        return f"{nsname}::act{v}"
+    if k == 'k':            # control family (class template ctl<v> of the grammar's namespace)
+        return f"{nsname}::ctl{v}"
+    if k == 's':            # state type: 1 = default-constructed only, 0 = constructed from ( in, outer... )
+        return 'vh::vstate_d' if v else 'vh::vstate_c'
     raise ValueError(a)
 
 
@@ -171,6 +189,10 @@ def public_base(t: T):
         return I('try_catch_raise_nested', X('std::exception'), *a)
     if n == 'action':
         return I('action', *a)
+    if n == 'state':
+        return I('state', *a)
+    if n == 'control':
+        return I('control', *a)
     if n == 'utf8::range':
         return I('range', SUCCESS_RES, PEEK_UTF8, *a)
     if n == 'utf8::not_range':
@@ -393,6 +415,18 @@ def body_of_internal(t: T):
         if len(ty) > 1:
             return body_of_internal(I('action', fam, I('seq', *ty)))
         return ('action', [fam, ty[0]])
+    if n == 'control':      # not part of the Lean model (C13: oracle-only)
+        if not ty:
+            return ('atom', ['success'])
+        if len(ty) > 1:
+            return body_of_internal(I('control', a[0], I('seq', *ty)))
+        return ('control', [a[0], ty[0]])
+    if n == 'state':
+        if not ty:
+            return ('atom', ['success'])
+        if len(ty) > 1:
+            return body_of_internal(I('state', a[0], I('seq', *ty)))
+        return ('state', [a[0], ty[0]])
     raise ValueError(f"unknown internal template {n}")
 
 
@@ -405,7 +439,7 @@ class ActSpec:
     veto_mod: int = 0
     throw_mod: int = 0
     throw_std: bool = False
-    wrap: str = 'none'      # none | ca:<fam> | da | ea | ld:<n> | lb:<n>
+    wrap: str = 'none'      # none | ca:<fam> | da | ea | ld:<n> | lb:<n> | cs:<multi> | cas:<fam>:<multi>
 
     def proto(self):
         return f"{self.kind} {int(self.is_bool)} {self.veto_mod} {self.throw_mod} {int(self.throw_std)} {self.wrap}"
@@ -549,6 +583,10 @@ class Grammar:
         if k == 'action':
             fam = p[0]
             return f"action {fam[1] if isinstance(fam, tuple) else fam} {p[1]}"
+        if k == 'control':
+            return f"control {p[0][1]} {p[1]}"
+        if k == 'state':
+            return f"state {p[0][1]} {p[1]}"
         raise ValueError(k)
 
     def children(self, nid) -> List[int]:
@@ -570,7 +608,7 @@ class Grammar:
             out = [nd.params[1], nd.params[2]]
         elif nd.kind in ('tcrf', 'tcrn'):
             out = [nd.params[1]]
-        elif nd.kind == 'action':
+        elif nd.kind in ('action', 'state', 'control'):
             out = [nd.params[1]]
         return out
 
@@ -578,6 +616,9 @@ class Grammar:
         """Namespace with the rule types, the action class templates and the id table."""
         ns = self.ns
         o = [f"namespace {ns} {{", "struct tag {};"]
+        o.append("template< typename R > struct ctl2;")
+        for f in [0] + sorted(self.fams):
+            o.append(f"template< typename R > struct act{f};")
         for rid in sorted(self.named):
             o.append(f"struct n{rid};")
         for rid in sorted(self.named):
@@ -587,6 +628,9 @@ class Grammar:
                 o.append(f"struct n{rid} : {base} {{}};")
             else:
                 o.append(f'struct n{rid} : {base} {{ static constexpr const char* error_message = "{msg}"; }};')
+        o.append("template< typename R > struct ctl : vh::vcontrol< tag, R > {};")
+        o.append("template< typename R > struct ctl_nu : vh::vcontrol_nounwind< tag, R > {};")
+        o.append("template< typename R > struct ctl2 : vh::vcontrol2< tag, R > {};")
         fams = [0] + sorted(self.fams)
         for f in fams:
             o.append(f"template< typename R > struct act{f} : tao::pegtl::nothing< R > {{}};")
@@ -609,6 +653,13 @@ class Grammar:
                     bases.append("tao::pegtl::disable_action")
                 elif w == 'ea':
                     bases.append("tao::pegtl::enable_action")
+                elif w == 'cc':
+                    bases.append("tao::pegtl::change_control< ctl2 >")
+                elif w.startswith('cs:'):
+                    bases.append("vh::act_change_state< tag >" if w[3:] == '0' else "vh::act_change_states< tag >")
+                elif w.startswith('cas:'):
+                    _, fam2, mu = w.split(':')
+                    bases.append(f"vh::act_change_action_and_state< tag, act{fam2} >" if mu == '0' else f"vh::act_change_action_and_states< tag, act{fam2} >")
                 elif w.startswith('ld:'):
                     bases.append(f"tao::pegtl::limit_depth< {w[3:]} >")
                     limit_ids[f"tao::pegtl::limit_depth< {w[3:]} >"] = (1000000 + 2 * int(w[3:]), "maximum parser rule nesting depth exceeded")
@@ -617,8 +668,6 @@ class Grammar:
                     limit_ids[f"tao::pegtl::limit_bytes< {w[3:]} >"] = (1000001 + 2 * int(w[3:]), "maximum allowed rule consumption reached")
                 o.append(f"template<> struct act{f}< {nd.cpp} > : {', '.join(bases)} {{}};")
         self._limit_ids = limit_ids
-        o.append("template< typename R > struct ctl : vh::vcontrol< tag, R > {};")
-        o.append("template< typename R > struct ctl_nu : vh::vcontrol_nounwind< tag, R > {};")
         o.append("inline void reg() {")
         for nid in sorted(self.nodes):
             o.append(f"  vh::reg< tag, {self.nodes[nid].cpp} >( {nid} );")
